@@ -399,11 +399,36 @@ def _calc_theory_contract(reg):
             if isinstance(out, SArr) and isinstance(log.get("applied"), SArr):
                 g = z3.And(log["applied"].at(j) == K(j), out.at(j) == A(j) + bspec)
             reg.prove("%s.calc_theory.background_added_after_smearing.%s" % (PROP, data_type),
-                      pc + [j >= 0, j < nq], g, function=fn)
+                      pc + [j >= 0, j < nq], g, function=fn,
+                      replay=lambda mdl=None, data_type=data_type: _calc_theory_replay(data_type))
             reg.prove("%s.calc_theory.frame.pars_unmodified.%s" % (PROP, data_type), pc,
                       z3.BoolVal(dict(pars.entries) == before and log.get("pars_obj") is not pars),
                       function=fn)
         Interp(reg).run_paths(body)
+
+
+def _calc_theory_replay(data_type):
+    """Real DirectModel: theory(background=b) - theory(background=0) must be b (0 for SESANS)."""
+    import numpy as np
+    from sasmodels import core, data as sdata
+    from sasmodels.direct_model import DirectModel
+    model = core.load_model("sphere")
+    if data_type == "sesans":
+        d = sdata.empty_sesans(z=np.array([100.0, 400.0, 1600.0]))
+        want = 0.0
+    elif data_type == "Iqxy":
+        d = sdata.empty_data2D(np.linspace(-0.05, 0.05, 5), resolution=0.05)
+        want = 0.37
+    else:
+        d = sdata.empty_data1D(np.logspace(-3, -1, 12), resolution=0.05)
+        want = 0.37
+    calc = DirectModel(d, model)
+    y0 = calc(radius=200.0, background=0.0)
+    y1 = calc(radius=200.0, background=0.37)
+    diff = np.asarray(y1) - np.asarray(y0)
+    bad = not np.allclose(diff, want, rtol=1e-9, atol=1e-12)
+    return bool(bad), {"call": "DirectModel(<%s data>, sphere)(background=0.37) - (background=0)" % data_type,
+                       "real": diff[:4].tolist(), "spec": want}
 
 
 def _name_checks(reg):
